@@ -149,11 +149,13 @@ mut("M22", "conn.go", """	if c.session != nil {
 	return c.conn.Close()""", """	c.session = nil
 
 	return c.conn.Close()""", ["C08"], "Close/post:logout-on-close", note="Close drops the session without Logout")
-mut("M67", "conn.go", """	if session := c.Session(); session != nil {
-		session.Logout()
-		c.setSession(nil)
+mut("M67", "conn.go", """	if c.session != nil {
+		c.session.Logout()
+		c.session = nil
 	}
-	c.helo = \"\"""", """	c.setSession(nil)
+	c.locker.Unlock()
+	c.helo = \"\"""", """	c.session = nil
+	c.locker.Unlock()
 	c.helo = \"\"""", ["C08", "C10"], "upgrade-logs-out", note="STARTTLS drops the session without Logout")
 mut("M34", "conn.go", "	c.writeResponse(code, ec, msg)\n\n	c.errCount++\n	if c.errCount > errThreshold {", "	c.writeResponse(code, ec, msg)\n\n	if code != 501 {\n		c.errCount++\n	}\n	if c.errCount > errThreshold {", ["C19"], "protocolError/post:counted", note="parse errors (501) are not counted")
 mut("M35", "server.go", """				c.writeResponse(500, EnhancedCode{5, 4, 0}, "Too long line, closing connection")
@@ -241,7 +243,9 @@ mut("P17r", "conn.go", "	c.lineLimitReader.LineLimit = 0\n	c.lineLimitReader.cur
 mut("P18r", "lengthlimit_reader.go", "			r.rest = append(append([]byte{}, b[lineStart:n]...), r.rest...)\n			return lineStart, nil", "			_ = lineStart\n			return 0, ErrTooLongLine", ["C05", "C19"], "", note="regression of fix 4981975: the Read that notices the excess fails and drops what it read")
 mut("P19r", "conn.go", "	line, err := c.text.R.ReadString('\\n')\n	if err != nil {\n		return \"\", err\n	}\n", "	line, err := c.text.R.ReadString('\\n')\n	if err != nil && line == \"\" {\n		return \"\", err\n	}\n	if !strings.HasSuffix(line, \"\\n\") {\n		line += \"\\n\"\n	}\n", ["C19"], "bounded:line-limit-end-to-end", note="regression of the partial-line fix: the head of an over-long line runs as a command")
 mut("P20r", "conn.go", "	if c.server.MaxLineLength > 0 && len(line) > c.server.MaxLineLength {\n		// Read ahead while the limit was lifted for a BDAT chunk.\n		return \"\", ErrTooLongLine\n	}\n", "", ["C19"], "a-line-handed-to-the-command-loop-is-within-the-limit", note="regression: lines read ahead behind a chunk escape the limit")
+mut("P21r", "conn.go", "	c.locker.Lock()\n	if c.session != nil {\n		c.session.Logout()\n		c.session = nil\n	}\n	c.locker.Unlock()\n	c.helo = \"\"", "	if session := c.Session(); session != nil {\n		session.Logout()\n		c.setSession(nil)\n	}\n	c.helo = \"\"", ["C08", "C20"], "holds:Conn.locker@Session.Logout", note="regression: STARTTLS logs out outside the critical section")
 # ---------------------------------------------------------------- client.go
+mut("M111", "client.go", "	if _, ok := c.ext[\"SIZE\"]; ok && opts != nil && opts.Size != 0 {", "	if _, ok := c.ext[\"SIZE\"]; ok && opts != nil && opts.Size > 1 {", ["C14"], "every-requested-and-offered-option-is-rendered", note="SIZE=1 is not rendered")
 mut("M104", "client.go", "		if resp == nil {\n			break\n		}\n		resp64 = make([]byte, encoding.EncodedLen(len(resp)))", "		if len(resp) == 0 {\n			break\n		}\n		resp64 = make([]byte, encoding.EncodedLen(len(resp)))", ["C09"], "success-means-the-server-said-235", note="client stops the AUTH exchange on an empty (non-nil) response and reports success")
 mut("M30", "client.go", "	if d.closed {\n		return fmt.Errorf(\"smtp: data writer closed twice\")\n	}\n	d.closed = true\n", "	if d.closed {\n		return fmt.Errorf(\"smtp: data writer closed twice\")\n	}\n", ["C16"], "always-closed-afterwards", note="dataCloser never marked closed (also regression of fix 755bba6)")
 mut("P13r", "client.go", "		// The transaction is over, its recipients must not be reported\n		// again for the next one on this connection.\n		d.c.rcpts = nil\n", "", ["C18"], "recipients-forgotten", note="regression of fix beb567b (LMTP recipients carried over)")
